@@ -42,7 +42,7 @@ class Cfg:
     def big_storage(self) -> bool:
         if self.storage_big is not None:
             return self.storage_big
-        return self.target == "s390x" or "BP_BIG_ENDIAN" in self.defines
+        return self.target in ("s390x", "ppc64", "mips64") or "BP_BIG_ENDIAN" in self.defines
 
     def native_ok(self) -> bool:
         return self.target == "x86_64"
